@@ -124,18 +124,36 @@ def check_step(P, S, a, S2, reward, last, ev):
     return out
 
 
+def _mask_respecting(ev):
+    """Was the action of step event `ev` offered by the mask the agent saw? (the statement of C06/C08 is about
+    mask-respecting play; the workload layer normally guarantees it, this is a second line of defence, e.g.
+    for deterministic policies facing an empty mask)."""
+    O0 = ev.O0
+    if O0 is None or "action_mask" not in O0:
+        return True
+    m = np.asarray(O0["action_mask"]).astype(bool)
+    a = int(ev.action)
+    return 0 <= a < len(m) and bool(m[a])
+
+
 def hard_constraints(P, trace):
     out = []
     sh = P.shadow
     if "n_seen" not in sh:
         sh["n_seen"], sh["route"] = 1, []
     for ev in trace[sh["n_seen"]:]:
+        if not _mask_respecting(ev):
+            sh["void"] = True
+        if sh.get("void"):
+            break
         a = int(ev.action)
         if a in sh["route"]:
             out.append(f"no_city_twice: city {a} visited twice (route so far {sh['route'][:12]})")
         sh["route"].append(a)
         P.hit("city_visit_recorded")
     sh["n_seen"] = len(trace)
+    if sh.get("void"):
+        return []  # a masked-out action was played: outside the statement from here on
     S = trace[-1].S
     nv = int(S["num_visited"])
     route = sh["route"]
@@ -151,6 +169,8 @@ def hard_constraints(P, trace):
 
 
 def complete(P, trace):
+    if not all(_mask_respecting(e) for e in trace[1:]):
+        return None
     S = trace[-1].S
     n = P.params["n"]
     if int(S["num_visited"]) != n:
@@ -168,6 +188,8 @@ def complete(P, trace):
 
 
 def objective(P, trace):
+    if not all(_mask_respecting(e) for e in trace[1:]):
+        return None
     S = trace[-1].S
     n = P.params["n"]
     if int(S["num_visited"]) != n:
